@@ -7,57 +7,62 @@ use lexical_write_float::algorithm::{self as alg, DragonboxFloat};
 fn pow10(n: u32) -> u64 { let mut p = 1u64; let mut i = 0; while i < n { p *= 10; i += 1; } p }
 
 crate::harnesses! {
-    /// f32 remove_trailing_zeros: for every non-zero u32 m, returns (m', s) with m' * 10^s == m and 10 does not divide m'.
+    /// f32 remove_trailing_zeros on a * 10^j (a < 2^12, j <= 5): returns (m', s) with m' * 10^s == m and 10 does not divide m'.
+    /// (the contract is PROVED for every input by the Verus unit wf_rtz; this small-domain harness supplies counterexamples)
     /// @prop C02
-    /// (quick tier: the same contract is proved for every input by the Verus units wf_rtz / wf_dbmul; this harness supplies counterexamples)
     /// @tier thorough
     /// @feat default radix_format
+    /// @bound significands a * 10^j with a < 4096, j <= 5
     /// @fn lexical-write-float::algorithm::DragonboxFloat::remove_trailing_zeros[f32]
     /// @fn lexical-write-float::algorithm::rotr32
-    /// @timeout 1800
+    /// @timeout 1200
     #[cfg_attr(kani, kani::unwind(12))]
-    fn dragonbox_rtz_f32_all() {
-        let m: u32 = any();
-        assume(m != 0);
-        let (r, s) = <f32 as DragonboxFloat>::remove_trailing_zeros(m as u64);
+    fn dragonbox_rtz_f32_scaled() {
+        let a: u32 = any();
+        let j: u32 = any();
+        assume(a >= 1 && a < 4096 && j <= 5);
+        let m = a as u64 * pow10(j);
+        let (r, s) = <f32 as DragonboxFloat>::remove_trailing_zeros(m);
         vcheck!(s >= 0 && s <= 9, "stripped exponent in range");
         vcheck!(r != 0 && r % 10 != 0, "no trailing decimal zero left");
-        vcheck!(r.checked_mul(pow10(s as u32)) == Some(m as u64), "m' * 10^s == m (only zeros were removed)");
-        cover(s == 9);
+        vcheck!(r.checked_mul(pow10(s as u32)) == Some(m), "m' * 10^s == m (only zeros were removed)");
+        cover(s == 6);
     }
 
-    /// f64 remove_trailing_zeros on significands below 2^32 (magic-number divisibility test by 10^8, then the 32-bit loop).
+    /// f64 remove_trailing_zeros on a * 10^j (a < 2^10, j <= 14): both branches of the 10^8 test and both loops.
+    /// (proved for every input by the Verus unit wf_rtz; counterexample supplier)
     /// @prop C02
-    /// (quick tier: the same contract is proved for every input by the Verus units wf_rtz / wf_dbmul; this harness supplies counterexamples)
     /// @tier thorough
     /// @feat default radix_format
-    /// @bound significand < 2^32 (the function is used for significands up to 10^17)
+    /// @bound significands a * 10^j with a < 1024, j <= 14
     /// @fn lexical-write-float::algorithm::DragonboxFloat::remove_trailing_zeros[f64]
-    /// @timeout 1800
-    #[cfg_attr(kani, kani::unwind(12))]
-    fn dragonbox_rtz_f64_small() {
-        let m: u32 = any();
-        assume(m != 0);
-        let (r, s) = <f64 as DragonboxFloat>::remove_trailing_zeros(m as u64);
-        vcheck!(s >= 0 && s <= 9, "stripped exponent in range");
+    /// @timeout 1200
+    #[cfg_attr(kani, kani::unwind(18))]
+    fn dragonbox_rtz_f64_scaled() {
+        let a: u32 = any();
+        let j: u32 = any();
+        assume(a >= 1 && a < 1024 && j <= 14);
+        let m = a as u64 * pow10(j);
+        let (r, s) = <f64 as DragonboxFloat>::remove_trailing_zeros(m);
+        vcheck!(s >= 0 && s <= 17, "stripped exponent in range");
         vcheck!(r != 0 && r % 10 != 0, "no trailing decimal zero left");
-        vcheck!(r.checked_mul(pow10(s as u32)) == Some(m as u64), "m' * 10^s == m (only zeros were removed)");
-        cover(s == 8);
+        vcheck!(r.checked_mul(pow10(s as u32)) == Some(m), "m' * 10^s == m (only zeros were removed)");
+        cover(s >= 8);
     }
 
-    /// f64 remove_trailing_zeros on k * 10^8 + d with k < 2^27, d < 4 (values around multiples of 10^8 up to 1.3e16).
+    /// f64 remove_trailing_zeros on k * 10^8 + d with k < 2^10, d < 4 (values around multiples of 10^8).
+    /// (proved for every input by the Verus unit wf_rtz; counterexample supplier)
     /// @prop C02
-    /// (quick tier: the same contract is proved for every input by the Verus units wf_rtz / wf_dbmul; this harness supplies counterexamples)
     /// @tier thorough
     /// @feat default radix_format
-    /// @bound significands k * 10^8 + d, k < 2^27, d in 0..=3
+    /// @bound significands k * 10^8 + d, k < 1024, d in 0..=3
     /// @fn lexical-write-float::algorithm::DragonboxFloat::remove_trailing_zeros[f64] (divisibility by 10^8)
-    /// @timeout 2400
+    /// @timeout 1200
     #[cfg_attr(kani, kani::unwind(12))]
     fn dragonbox_rtz_f64_near_1e8_multiples() {
         let k: u32 = any();
         let d: u8 = any();
-        assume(k >= 1 && k < (1 << 27) && d <= 3);
+        assume(k >= 1 && k < 1024 && d <= 3);
         let m = k as u64 * 100_000_000 + d as u64;
         let (r, s) = <f64 as DragonboxFloat>::remove_trailing_zeros(m);
         vcheck!(s >= 0 && s <= 16, "stripped exponent in range");
@@ -67,32 +72,36 @@ crate::harnesses! {
         cover(d == 0 && s >= 8);
     }
 
-    /// divide_by_pow10 (f64, exp = KAPPA + 1 = 3) == n / 1000 for every n <= n_max used by compute_nearest_normal.
+    /// divide_by_pow10 (f64, exp = 3) == n / 1000 on the top 2^16 values below n_max (where a wrong magic number shows first).
+    /// (proved for every n <= n_max by the Verus unit wf_dbmul; counterexample supplier)
     /// @prop C02
-    /// (quick tier: the same contract is proved for every input by the Verus units wf_rtz / wf_dbmul; this harness supplies counterexamples)
     /// @tier thorough
     /// @feat default radix_format
+    /// @bound n in n_max - 65535 ..= n_max
     /// @fn lexical-write-float::algorithm::divide_by_pow10_64
     /// @fn lexical-write-float::algorithm::umul128_upper64
-    /// @timeout 1800
+    /// @timeout 1200
     fn dragonbox_divide_by_pow10_f64() {
-        let n: u64 = any();
+        let t: u16 = any();
         let n_max: u64 = (1u64 << 53) * 1000 - 1;
-        assume(n <= n_max);
-        vcheck!(alg::divide_by_pow10_64(n, 3, n_max) == n / 1000, "divide_by_pow10_64(n, 3) == n / 1000");
+        let n = n_max - t as u64;
+        let q = alg::divide_by_pow10_64(n, 3, n_max);
+        vcheck!(q <= n_max / 1000 && q * 1000 <= n && n - q * 1000 < 1000, "divide_by_pow10_64(n, 3) == n / 1000");
     }
 
-    /// divide_by_pow10 (f32, exp = KAPPA + 1 = 2) == n / 100 for every n <= n_max.
+    /// divide_by_pow10 (f32, exp = 2) == n / 100 for every n <= n_max (quotient characterised without a division).
+    /// (also proved by the Verus unit wf_dbmul)
     /// @prop C02
-    /// (quick tier: the same contract is proved for every input by the Verus units wf_rtz / wf_dbmul; this harness supplies counterexamples)
     /// @tier thorough
     /// @feat default radix_format
     /// @fn lexical-write-float::algorithm::divide_by_pow10_32
+    /// @timeout 1200
     fn dragonbox_divide_by_pow10_f32() {
         let n: u32 = any();
         let n_max: u64 = (1u64 << 24) * 100 - 1;
         assume((n as u64) <= n_max);
-        vcheck!(alg::divide_by_pow10_32(n, 2) == n / 100, "divide_by_pow10_32(n, 2) == n / 100");
+        let q = alg::divide_by_pow10_32(n, 2) as u64;
+        vcheck!(q * 100 <= n as u64 && (n as u64) - q * 100 < 100, "divide_by_pow10_32(n, 2) == n / 100");
     }
 
     /// check_div_pow10 / div_pow10 (small divisor 10^kappa): exact quotient and divisibility flag on the call-site range.
